@@ -489,3 +489,215 @@ def c_residue(text):
         if re.search(pat, mask(text)):
             bad.append(pat)
     return bad
+
+
+# ---------------------------------------------------------------------------
+# generic class -> C conversion
+# ---------------------------------------------------------------------------
+class CClass:
+    """A C view of one C++ class: `struct <cname>` whose members are harvested
+    (names and declaration ORDER) from the class text, and whose methods are
+    converted one by one with convert()."""
+
+    def __init__(self, rel, class_sig, cname, tbind=None, rw=None, nth=0):
+        self.rel = rel
+        self.cname = cname
+        self.tbind = dict(tbind or {})     # template parameter -> C type
+        self.class_sig = class_sig
+        self.slice = slice_block(rel, class_sig, nth=nth)
+        self.text = self.slice.text
+        self.rw = rw or Rewriter(cname)
+        self.members = []                  # (type, name, array) in declared order
+        self.sliced = []
+
+    def harvest_members(self, names):
+        """Find the declarations of the listed data members; record type and order."""
+        found = []
+        # only declarations at class scope: blank out nested brace blocks (method bodies, nested types)
+        mt = mask(self.text)
+        o = mt.find('{')
+        chars = list(self.text)
+        d = 0
+        for i in range(o, len(mt)):
+            if mt[i] == '{':
+                d += 1
+                if d >= 2:
+                    chars[i] = ' '
+            elif mt[i] == '}':
+                if d >= 2:
+                    chars[i] = ' '
+                d -= 1
+            elif d >= 2 and chars[i] != '\n':
+                chars[i] = ' '
+        body = ''.join(chars)[o + 1:]
+        for m in re.finditer(r'(?m)^[ \t]*(?:mutable\s+)?([\w:<>\*\s,]+?)\s+((?:\w+(?:\[[^\]]*\])?\s*(?:\{[^}]*\})?\s*,\s*)*\w+(?:\[[^\]]*\])?)\s*(?:\{[^}]*\}|=[^;]*)?;', body):
+            ty = re.sub(r'\b(public|private|protected)\s*:', '', m.group(1)).strip()
+            if ty.startswith(('return', 'using', 'typedef', 'friend', 'static', 'delete', 'goto')) or '(' in ty:
+                continue
+            for decl in m.group(2).split(','):
+                d = re.sub(r'\{[^}]*\}', '', decl).strip()
+                nm = re.match(r'(\w+)(\[[^\]]*\])?', d)
+                if nm and nm.group(1) in names:
+                    found.append((ty, nm.group(1), nm.group(2) or '', m.start()))
+        got = [f[1] for f in found]
+        for n in names:
+            if got.count(n) != 1:
+                raise ExtractionBreak('%s: member %s declared %d times in class text' % (self.cname, n, got.count(n)))
+        found.sort(key=lambda f: f[3])
+        self.members = [(f[0], f[1], f[2]) for f in found]
+        self.rw.fired['harvest-members'] = len(found)
+        return self.members
+
+    def member_names(self):
+        return [m[1] for m in self.members]
+
+    def ctype(self, ty):
+        t = ty.strip()
+        t = re.sub(r'\bconst\b', '', t).strip()
+        m = re.fullmatch(r'std::atomic<\s*(.+?)\s*>', t)
+        if m:
+            t = m.group(1)
+        t = self.tbind.get(t, t)
+        t = re.sub(r'\bstd::', '', t)
+        return t
+
+    def struct_decl(self, extra=''):
+        lines = ['struct %s {' % self.cname]
+        for ty, nm, arr in self.members:
+            lines.append('    %s %s%s;' % (self.ctype(ty), nm, arr))
+        if extra:
+            lines.append(extra)
+        lines.append('};')
+        return '\n'.join(lines) + '\n'
+
+    def method(self, sig, nth=0, ctor=False):
+        s = slice_block(self.rel, sig, within=self.class_sig, nth=nth, ctor=ctor)
+        self.sliced.append('%s:%d' % (s.rel, s.line))
+        return s
+
+    def convert(self, sl, cfn, methods=(), static_methods=(), other=None, ret=None, keep_static=False, pre=(), fcast=(), omethods=None, skip_init=()):
+        """Convert a sliced member function to `RET cfn(struct cname* self, params) {body}`.
+        methods: member functions of this class that the body calls (-> <cname>_<m>(self, ...)).
+        other: {paramname: CClass} for reference parameters of class type (p.x -> p->x, p.m() -> C_m(p))."""
+        rw = self.rw
+        text = sl.text
+        m = mask(text)
+        b = m.find('{')
+        # constructor with init list?
+        hdr_end = b
+        colon = None
+        depth = 0
+        for i, ch in enumerate(m[:b]):
+            if ch == '(':
+                depth += 1
+            elif ch == ')':
+                depth -= 1
+            elif ch == ':' and depth == 0 and m[i + 1] != ':' and m[i - 1] != ':':
+                colon = i
+                break
+        is_ctor = False
+        hdr = text[:colon if colon is not None else b]
+        hm = re.match(r'\s*(?:template\s*<[^>]*>\s*)?(?P<pre>(?:(?:static|constexpr|inline|virtual|explicit|friend)\s+)*)(?P<ret>[\w:<>\*&\s]*?)\s*(?P<name>~?\w+)\s*\((?P<params>.*)\)\s*(?P<q>(?:const|noexcept|override|final|\s)*)$', hdr, re.S)
+        if not hm:
+            raise ExtractionBreak('%s: cannot parse method header %r' % (self.cname, hdr[:120]))
+        is_static = 'static' in hm.group('pre')
+        rett = hm.group('ret').strip()
+        if rett == '':
+            is_ctor = True
+        params = [p for p in split_args(hm.group('params')) if p]
+        cparams, refs = [], {}
+        for p in params:
+            p = re.sub(r'=.*$', '', p).strip()           # default values dropped
+            p = re.sub(r'/\*.*?\*/', '', p).strip()
+            if re.fullmatch(r'(?:const\s+)?[\w:]+\s*&?', p):   # unnamed tag parameter (e.g. `split`)
+                continue
+            pm = re.match(r'(?P<ty>.+?)\s*(?P<ref>&&|&|\*)?\s*(?P<nm>\w+)$', p)
+            ty, rf, nm = pm.group('ty').strip(), pm.group('ref'), pm.group('nm')
+            cty = self.ctype(ty)
+            if other and nm in other:
+                cty = 'struct ' + other[nm].cname
+            elif cty == hm.group('name') or cty == self.cname or ty.split('<')[0] == re.sub(r'^\w+_', '', self.cname):
+                cty = 'struct ' + self.cname
+            if nm is None:
+                continue       # tag types carry no data: dropped
+            if rf in ('&', '&&'):
+                refs[nm] = cty
+                cparams.append('%s* %s' % (cty, nm))
+            elif rf == '*':
+                cparams.append('%s* %s' % (cty, nm))
+            else:
+                cparams.append('%s %s' % (cty, nm))
+        rw.fired['ref-param->pointer'] = rw.fired.get('ref-param->pointer', 0) + len(refs)
+        body = text[b:]
+        init = ''
+        if colon is not None:
+            il = text[colon + 1:b]
+            items = []
+            for it in split_args(il):
+                im = re.match(r'\s*(\w+)\s*[\(\{](.*)[\)\}]\s*$', it, re.S)
+                if not im:
+                    raise ExtractionBreak('%s: cannot parse init-list item %r' % (self.cname, it))
+                if im.group(1) in skip_init:
+                    continue
+                items.append((im.group(1), im.group(2).strip()))
+            order = self.member_names()
+            for nm, _ in items:
+                if nm not in order:
+                    raise ExtractionBreak('%s: init-list member %s was not harvested' % (self.cname, nm))
+            items.sort(key=lambda x: order.index(x[0]))   # C++ initialises in DECLARED order
+            init = ''.join('    %s = %s;\n' % (nm, ex if ex else '0') for nm, ex in items)
+            rw.fired['ctor-init-list->assignments(declared order)'] = rw.fired.get('ctor-init-list->assignments(declared order)', 0) + len(items)
+            body = '{\n' + init + body[1:]
+        if ret is None:
+            if is_ctor:
+                ret = 'void'
+            else:
+                ret = self.ctype(rett.replace('&', '').replace('*', '').strip()) + ('*' if ('&' in rett or '*' in rett) else '')
+                if ret in (re.sub(r'^\w+_', '', self.cname), self.cname):
+                    ret = 'struct ' + self.cname
+        # body rewriting (string literals are protected)
+        lits = []
+
+        def stash(mm):
+            lits.append(mm.group(0))
+            return '"@LIT%d@"' % (len(lits) - 1)
+        body = re.sub(r'"(?:[^"\\\n]|\\.)*"', stash, body)
+        for pat, rep, minc in pre:
+            body = rw.sub(body, pat, rep, minc, name='pre:' + pat)
+        for nm in refs:
+            body = re.sub(r'\b%s\.' % nm, nm + '->', body)
+        body = re.sub(r'\bthis->', 'self->', body)
+        body = re.sub(r'\(\*this\)\.', 'self->', body)
+        mem = self.member_names()
+        if mem and not is_static:
+            body = re.sub(r'(?<![\w.>])(%s)\b(?!\s*\()' % '|'.join(mem), r'self->\1', body)
+        if methods:
+            def fn(mm, a):
+                a = [x for x in a if x != '']
+                pre = mm.group('obj')
+                if pre:
+                    obj = pre[:-2] if pre.endswith('->') else '&' + pre[:-1]
+                else:
+                    obj = 'self'
+                return '%s_%s(%s)' % (self.cname, mm.group('m'), ', '.join([obj] + a))
+            for _ in range(10):
+                body, n = sub_call(body, r'(?<![\w.>:])(?P<obj>(?:self->|\w+->|\w+\.)?)(?P<m>%s)' % '|'.join(methods), fn)
+                if n == 0:
+                    break
+        if other:
+            for pn, oc in other.items():
+                def ofn(mm, a, oc=oc, pn=pn):
+                    a = [x for x in a if x != '']
+                    return '%s_%s(%s)' % (oc.cname, mm.group('m'), ', '.join([pn] + a))
+                body, n = sub_call(body, r'\b%s(?:->|\.)(?P<m>\w+)' % pn, ofn)
+                rw.fired['other-class-method'] = rw.fired.get('other-class-method', 0) + n
+        for tp, ct in self.tbind.items():
+            body = re.sub(r'\b%s\b' % re.escape(tp), ct, body)
+        body = rw.casts(body)
+        if fcast:
+            body = rw.fcasts(body, list(fcast))
+        body = rw.asserts(body)
+        body = rw.std(body)
+        body = re.sub(r'"@LIT(\d+)@"', lambda mm: lits[int(mm.group(1))], body)
+        selfp = [] if (is_static and not keep_static) else ['struct %s* self' % self.cname]
+        return '%s %s(%s) %s\n' % (ret, cfn, ', '.join(selfp + cparams) or 'void', body)
